@@ -24,7 +24,8 @@ class B(BaseException):
 
 
 PRE = ["yield", "raise", "noyield"]
-HANDLER = ["none", "finally", "swallow", "reraise", "raise_new", "raise_new_from_none", "raise_same_type", "return", "yield_again", "raise_stopasync"]
+HANDLER = ["none", "finally", "swallow", "reraise", "raise_new", "raise_new_from_none", "raise_same_type", "return", "yield_again", "raise_stopasync",
+           "raise_runtime", "raise_runtime_from_none"]
 AFTER = ["stop", "yield", "raise"]
 BLOCKS = ["normal", "Exception", "BaseException", "StopIteration", "StopAsyncIteration", "RuntimeError", "GeneratorExit", "KeyboardInterrupt"]
 BLOCK_EXC = {"Exception": Exception, "BaseException": BaseException, "StopIteration": StopIteration, "StopAsyncIteration": StopAsyncIteration,
@@ -64,6 +65,10 @@ def make_gen(pre, handler, after, nested=False):
                     yield "again"
                 elif handler == "raise_stopasync":
                     raise StopAsyncIteration
+                elif handler == "raise_runtime":
+                    raise RuntimeError("raised by user code")
+                elif handler == "raise_runtime_from_none":
+                    raise RuntimeError("raised by user code") from None
         if after == "yield":
             yield "after"
         elif after == "raise":
@@ -162,7 +167,7 @@ def run_cm(factory, genf, block, value, ids):
                     raise value
             return ("normal",)
         except BaseException as e:  # noqa
-            if isinstance(e, RuntimeError) and e is not value and e.__cause__ is None and "generator" in str(e) and "async generator" not in str(e):
+            if isinstance(e, RuntimeError) and e is not value and e.__cause__ is None and str(e).startswith(("generator did", "generator didn't")):
                 return ("runtime_lib", str(e))
             return ("raises", kind_of(e), ids.of(e), e)
     out = drive(go())
